@@ -16,6 +16,12 @@ CHECKS = {
              text="Generated histories of collective, independent and nonblocking writes to 1-3 record variables by 2-4 (8 thorough) ranks, fills, partial waits, mode switches, syncs, redefinitions and reopen; after every call every rank's inq_dimlen and (at the documented points) the numrecs field in the file are compared with a model that tracks a per-rank view; final read-back proves the highest record is readable. Decides the property through timing-independent observables; MPI progress non-determinism is not explored."),
  "C11": dict(level="fault_enumeration", section="4/C11", technique="fault enumeration: every MPI-IO data-transfer call of generated programs x rank x MPI error class, injected through a PMPI shim, with 'the error must surface' as oracle",
              text="For Hypothesis-drawn small programs a fault-free run records every MPI_File_{read,write}[_at][_all] call per rank with its call site; then one run per (rank, call, error class) overrides that call's return value. The enclosing API call (or the completing wait) must report an error on that rank, every rank must return from it (collective matcher), nothing may crash. Quick: all calls x {IO, NO_SPACE, one rotating class}; thorough: all 7 classes for 40 programs per worker. One fault per run; open/set_view/sync/close faults are out of scope."),
+ "C07": dict(level="exploration", section="4/C07", technique="property-based testing (Hypothesis op lists simulated against a sequential schema model), decoded header as second oracle",
+             text="Generated histories of def/put/overwrite/rename/copy/delete on dims, vars and attributes with names engineered to collide (hash buckets for every table size, NFC-equal spellings, 1/256-byte names, rejected names), interleaved with enddef/redef/close/reopen; after every step the full inquiry dump, name->id lookups and (for data-mode updates) the bytes on disk decoded by an independent decoder are compared with a sequential reference model. Sampling, not proof."),
+ "C09": dict(level="exploration", section="4/C09 + appendix D", technique="exhaustive enumeration of the 8/16-bit value domains plus boundary/random value vectors for every type pair, against an exact arithmetic conversion model",
+             text="All external x memory type pairs, put and get, variables and attributes, CDF-1/2/5: every value of the 8- and 16-bit source types (exhaustive sub-domain) and boundary/NaN/Inf/denormal/random vectors for wider types, judged on the stored bytes (native read-back and independent decoder) resp. the returned buffer by a vectorised model cross-checked against an exact Fraction model. The ambiguity band stated in DESIGN appendix D is not judged."),
+ "C15": dict(level="exploration", section="4/C15 + appendix B", technique="exhaustive enumeration of (start,count,stride) tuples on small shapes plus Hypothesis for larger shapes, reference predicate for the error code and byte-level before/after diff of the file",
+             text="Every (start,count,stride) tuple within and beyond 1-2 dimensional shapes of length 1..3 (3-D sampled/thorough), all API forms incl. varn and nonblocking, strict and relaxed coordinate bounds, three formats: return code must be in the set the documented precedence allows; rejected/zero-length/read requests must leave the file byte-identical; accepted writes may change only bytes of the addressed elements (offsets from an independent decoder) and the numrecs field. exhaustive:true only for the enumerated small-shape domain."),
 }
 NA_REASON = "check under construction in this session; not yet claimed"
 checks = []
